@@ -142,9 +142,24 @@ func init() {
 		for i := 0; i < n && c.TimeLeft(); i++ {
 			sa, sb := newSpec("LA5NTA", "N0CALL", false), newSpec("N0CALL", "LA5NTA", true)
 			nm := 1 + c.Rng.Intn(2)
+			if i%5 == 4 {
+				nm = 2 // (pacing mode 4 below: a reporting tick falls before the end of EVERY transfer)
+			}
 			for k := 0; k < nm; k++ {
 				m := genMessage(c.Rng, sa.mycall, sb.mycall, 200)
-				data := make([]byte, 1000+c.Rng.Intn(c.Budget(12000, 40000)))
+				size := 1000 + c.Rng.Intn(c.Budget(12000, 40000))
+				if nm == 2 && (i%2 == 0 || i%5 == 4) {
+					// a LARGE message of higher precedence goes out before a small routine one (proposals are sorted by
+					// precedence, then size): whatever a reporter remembers of the first transfer is wrong for the second
+					if k == 0 {
+						m.SetSubject("//WL2K P/ priority traffic")
+						size = 9000 + c.Rng.Intn(6000)
+					} else {
+						m.SetSubject("routine")
+						size = 1000 + c.Rng.Intn(1500)
+					}
+				}
+				data := make([]byte, size)
 				c.Rng.Read(data)
 				m.AddFile(fbb.NewFile("blob.bin", data))
 				sa.outbox = append(sa.outbox, newOutMsg(m))
